@@ -1,4 +1,5 @@
 import ReplicatProofs.Lemmas.Settings
+import ReplicatProofs.Lemmas.SettingsKeyFile
 /-!
 # C17 — accepted settings always yield a usable repository and working keys
 
@@ -14,6 +15,8 @@ mapping; unknown keys, any adapter name in any slot) and every chain of add-key 
   only to draw its key, so hashing / chunking parameters and adapter kinds reach the stored config unchecked).
 * `reject_leaves_backend`, `accept_uploads_config_once` — full.
 * `addkey_unlocks_own_only`, `addkey_shared_keeps_family`, `addkey_accept_implies_kdf_usable` — full (symbolic KDF / AEAD).
+* `keyfile_*` — the key file ON DISK (`-o PATH`) as a later process reads it, for every pre-existing state of the path
+  (`ReplicatModel/KeyFileIO.lean`; the way the path is opened is regenerated from `/repo`: `key_write_bridge`).
 -/
 namespace Replicat.C17
 open Replicat.Gen Replicat.Settings
@@ -268,6 +271,124 @@ example :
     let r := runKeyOps (fun (_ : Nat) => true) (initRing 0 (10 : Nat))
       [.independent 1 11, .shared 0 0 2 12, .clone 1 7 13, .clone 1 1 14]
     r.keys.map (fun kp => (kp.1.family, kp.2)) = [(1, 0), (3, 1), (1, 2), (3, 1)] := by
+  decide
+
+/-! ## the key file on disk, as a later process sees it (`init -o PATH`, `add-key -o PATH`) -/
+
+/-- The statement that stores the key in `init` and in `_add_key` discards whatever the output path held (it truncates, or
+renames a finished temporary file onto the path), and it comes after the last statement that can refuse the settings.
+Regenerated from `/repo` (`tools/sections/17_settings.py`, helper methods are followed): opening the path without
+truncation, appending or `'x'` makes this fail. -/
+theorem key_write_bridge :
+    overwrites keyWriteInit = true ∧ overwrites keyWriteAddKey = true ∧ keyWriteAfterChecks = true := by decide
+
+/-- **Whatever the output path held before** (nothing, a shorter / longer / equally long earlier key file, anything else):
+after an add-key invocation that produced a key, the path holds exactly the serialisation of that key. -/
+theorem keyfile_holds_serialized_key {κ α : Type} [DecidableEq κ] (ser : KeyFile κ → List α) (valid : κ → Bool)
+    (d : KeyDisk κ α) (o : KeyOpAt κ) (p : Nat) (kp : KeyFile κ × Pw) (nx : Nat)
+    (hprod : producedKey valid d.ring o.op = some (kp, nx)) (hout : o.out = some p) :
+    (stepDisk keyWriteAddKey ser valid d o).files.lookup p = some (ser kp.1) := by
+  unfold stepDisk
+  simp only [hprod, hout, writeBytes_overwrites keyWriteAddKey key_write_bridge.2.1]
+  simp
+
+/-- the same for `init -o PATH`: it succeeds over any earlier file and the path then holds the serialised first key -/
+theorem keyfile_init_holds_serialized_key {κ α : Type} (ser : KeyFile κ → List α) (files0 : List (Nat × List α))
+    (pw : Pw) (kdf : κ) (p : Nat) :
+    ∃ d, initDisk keyWriteInit ser files0 pw kdf (some p) = some d ∧ d.files.lookup p = some (ser (mkKey kdf 0 pw 1)) := by
+  simp only [initDisk, writeBytes_overwrites keyWriteInit key_write_bridge.1]
+  exact ⟨_, rfl, by simp⟩
+
+/-- **A fresh process that reads a key file from disk unlocks the repository with that key's own password and with no
+other** — for every chain of `init -o` / add-key invocations (independent, shared, clone; any KDF parameters, refused ones
+included; right or wrong unlocking passwords; key printed or written to any path, the same path any number of times) over
+EVERY pre-existing content `files0` of the output paths.  `parse ∘ ser = some` is the JSON round trip of
+`serialize` / `deserialize` (validated by the harness on the real files); KDF / AEAD are symbolic as in `addkey_unlocks_own_only`. -/
+theorem keyfile_fresh_load_unlocks_own_only {κ α : Type} [DecidableEq κ] (ser : KeyFile κ → List α)
+    (parse : List α → Option (KeyFile κ)) (hparse : ∀ k, parse (ser k) = some k) (valid : κ → Bool)
+    (files0 : List (Nat × List α)) (pw0 : Pw) (kdf0 : κ) (out0 : Option Nat) (ops : List (KeyOpAt κ)) :
+    ∃ d0, initDisk keyWriteInit ser files0 pw0 kdf0 out0 = some d0 ∧
+      ∀ p k pw, (runDisk keyWriteAddKey ser valid d0 ops).holder.lookup p = some (k, pw) →
+        ∀ pw', (freshLoad parse (runDisk keyWriteAddKey ser valid d0 ops).files p pw').isSome = true ↔ pw' = pw := by
+  obtain ⟨d0, hd0, hok0, _⟩ := diskOk_init keyWriteInit key_write_bridge.1 ser files0 pw0 kdf0 out0
+  refine ⟨d0, hd0, ?_⟩
+  intro p k pw hh pw'
+  have hok := diskOk_run keyWriteAddKey key_write_bridge.2.1 ser valid ops d0 hok0
+  obtain ⟨hfile, hmem⟩ := hok.2 p (k, pw) hh
+  have hs := hok.1 (k, pw) hmem
+  simp only at hs hfile
+  simp only [freshLoad, hfile, hparse]
+  unfold unlockKey
+  rw [hs]
+  constructor
+  · intro h
+    split at h
+    · rename_i heq
+      injection heq
+    · simp at h
+  · intro h
+    subst h
+    simp
+
+/-- writing key files does not change which keys exist: the ring is the one of the plain chain of `addkey_unlocks_own_only` -/
+theorem keyfile_chain_is_addkey_chain {κ α : Type} [DecidableEq κ] (ser : KeyFile κ → List α) (valid : κ → Bool)
+    (d : KeyDisk κ α) (ops : List (KeyOpAt κ)) :
+    (runDisk keyWriteAddKey ser valid d ops).ring = runKeyOps valid d.ring (ops.map (·.op)) :=
+  ring_runDisk keyWriteAddKey key_write_bridge.2.1 ser valid ops d
+
+/-- a refused add-key (wrong unlocking password, KDF parameters the library rejects) leaves every file as it was — an
+earlier working key at the output path keeps working; and a successful one changes no other path -/
+theorem keyfile_frame {κ α : Type} [DecidableEq κ] (m : WriteMode) (ser : KeyFile κ → List α) (valid : κ → Bool)
+    (d : KeyDisk κ α) (o : KeyOpAt κ) :
+    (producedKey valid d.ring o.op = none → (stepDisk m ser valid d o).files = d.files) ∧
+    (∀ q, o.out ≠ some q → (stepDisk m ser valid d o).files.lookup q = d.files.lookup q) := by
+  constructor
+  · intro h
+    simp [stepDisk, h]
+  · intro q hq
+    unfold stepDisk
+    cases hp : producedKey valid d.ring o.op with
+    | none => rfl
+    | some kn =>
+      obtain ⟨kp, nx⟩ := kn
+      cases ho : o.out with
+      | none => rfl
+      | some p =>
+        simp only
+        cases hw : writeBytes m (d.files.lookup p) (ser kp.1) with
+        | error e => rfl
+        | ok c =>
+          simp only [List.lookup_cons]
+          have : (q == p) = false := by
+            rw [ho] at hq
+            simp only [beq_eq_false_iff_ne, ne_eq]
+            intro h; exact hq (by rw [h])
+          simp [this]
+
+/-- Negation witness for a key-file statement that does not truncate (`os.open(path, O_WRONLY | O_CREAT)`, `'r+b'`): over a
+LONGER earlier file the tail survives, the path does not hold the serialised key, and a strict parser (`json.loads`:
+"Extra data") gives a fresh process nothing to unlock with. -/
+theorem inplace_write_keeps_tail {κ α : Type} [DecidableEq κ] (ser : KeyFile κ → List α) (parse : List α → Option (KeyFile κ))
+    (k : KeyFile κ) (tail : List α) (hne : tail ≠ []) (hstrict : parse (ser k ++ tail) = none) (pw : Pw) :
+    writeBytes .inPlace (some (ser k ++ tail)) (ser k) = .ok (ser k ++ tail) ∧
+    writeBytes .inPlace (some (ser k ++ tail)) (ser k) ≠ .ok (ser k) ∧
+    freshLoad parse [(0, ser k ++ tail)] 0 pw = none := by
+  refine ⟨by simp [writeBytes], ?_, by simp [freshLoad, hstrict]⟩
+  simp only [writeBytes, List.drop_left, ne_eq, Except.ok.injEq]
+  intro h
+  exact hne (List.append_right_eq_self.mp h)
+
+/-- non-vacuity: init writes to path 7 over a longer file, add-key --shared replaces it in place (same path), an independent
+key goes to path 8 over garbage; both paths then load in a fresh process with their own passwords only -/
+example :
+    let ser : KeyFile Nat → List Nat := fun k => [k.kdf, k.salt, k.sealedWith.pw, k.family]
+    let parse : List Nat → Option (KeyFile Nat) := fun
+      | [a, b, c, d] => some ⟨a, b, ⟨a, b, c⟩, d⟩
+      | _ => none
+    let d := (initDisk keyWriteInit ser [(7, [1, 2, 3, 4, 5, 6, 7]), (8, [9])] 0 10 (some 7)).map
+      (fun d0 => runDisk keyWriteAddKey ser (fun _ => true) d0 [⟨.shared 0 0 2 11, some 7⟩, ⟨.shared 0 5 3 12, some 7⟩, ⟨.independent 1 13, some 8⟩])
+    d.map (fun d => ((List.range 4).map (fun pw => (freshLoad parse d.files 7 pw).isSome), (List.range 4).map (fun pw => (freshLoad parse d.files 8 pw).isSome)))
+      = some ([false, false, true, false], [false, true, false, false]) := by
   decide
 
 /-- **Accepted settings are usable** (full statement).  On the current `/repo` (fix c31bfee: kind checks in `_make_config`,
